@@ -257,7 +257,22 @@ fn gen_case(rng: &mut Rng) -> Case {
                 let c2 = crate::mon::ladder::cfg_for(rng, Flavour::Sor(v), w, h, pei);
                 let disp = rng.chance(1, 3);
                 let cut = if rng.chance(1, 2) { Some(rng.below(5000) as usize) } else { None };
-                let p = if have_ref && rng.chance(1, 3) { crate::mon::ladder::large_inter(rng, &c2, disp, cut) } else { crate::mon::ladder::large_intra(rng, &c2) };
+                // half of the time the large picture is a predicted one on top of an intra picture of the same size
+                // (pushed as a call of its own), sometimes with a vector in every macroblock
+                let p = if rng.chance(1, 2) {
+                    calls.push(Call { bytes: crate::mon::ladder::large_intra(rng, &c2).encode(), class: "ladder-size" });
+                    let mut c3 = c2.clone();
+                    c3.tr = c2.tr.wrapping_add(1);
+                    if rng.chance(1, 2) {
+                        crate::mon::ladder::dense_inter(rng, &c3)
+                    } else {
+                        crate::mon::ladder::large_inter(rng, &c3, disp, cut)
+                    }
+                } else if have_ref && rng.chance(1, 3) {
+                    crate::mon::ladder::large_inter(rng, &c2, disp, cut)
+                } else {
+                    crate::mon::ladder::large_intra(rng, &c2)
+                };
                 let b = p.encode();
                 if kind == 201 {
                     let (b2, _) = mutate(rng, b, &[]);
